@@ -5,7 +5,7 @@
    differential runs exercise). *)
 From Coq Require Import List Arith NArith Bool.
 From Coq.Strings Require Import Byte.
-From EZK Require Import Gen.Tables Lib.Bytes Lib.Num Lib.Utf8 Model.C03 Proofs.C03 Model.C02 Proofs.C02.
+From EZK Require Import Gen.Tables Lib.Bytes Lib.Num Lib.Utf8 Model.C03 Proofs.C03 Proofs.C03b Model.C02 Proofs.C02 Proofs.C02b.
 From EZK Require Model.C10 Proofs.C10 Model.C17 Proofs.C17.
 Import ListNotations.
 Close Scope N_scope.
@@ -69,6 +69,27 @@ Proof. exact run_framed_no_panic. Qed.
 Theorem C02_scan_total : forall fuel src p cl,
   p <= length src -> length src - p < fuel -> scan_lines fuel src p cl <> SPanic.
 Proof. exact scan_lines_no_panic. Qed.
+
+(* the second pass of the stream decoder (PullParser again from offset 0 over the split-off frame, then
+   Bytes::slice(head_end .. head_end + content_len)): the source slices with the length its first pass saved ... *)
+Theorem C02_stream_body_len_saved : stream_body_len_saved = true.
+Proof. reflexivity. Qed.
+
+(* ... and then, for every well-formed message (the frames of C03_main), the second pass stops at the same head
+   end as the first and the slice is in bounds: it is the message's body *)
+Theorem C02_second_pass_in_bounds : forall start_ok m he cl,
+  wfm start_ok m he cl -> second_pass stream_body_len_saved m cl = SpOk he (skipn he m).
+Proof. exact second_pass_wf. Qed.
+
+(* the form that decodes the length again from the parsed headers (first Content-Length) while the frame was
+   cut with the sniffed one (last Content-Length) panics: the saved length is what the theorem above rests on *)
+Theorem C02_second_pass_unsaved_refuted : exists frame cl,
+  scan_lines (S (length frame)) frame 0 0 = SComplete 59 cl /\ head_end frame 59 + N.to_nat cl = length frame /\
+  second_pass false frame cl = SpPanic.
+Proof.
+  exists sp_witness, 0%N. destruct sp_witness_is_a_frame as [H1 H2]. split; [exact H1|]. split; [|exact second_pass_unsaved_panics].
+  rewrite H2. vm_compute. reflexivity.
+Qed.
 
 (* counters fed by the peer: a CSeq of 2^32-1 keeps the dialog state inside u32 (C10), and no
    Session-Expires value disables or underflows the session timer (C17) *)
